@@ -971,12 +971,13 @@ pub fn run(prop: StepProp, tier: Tier, seed: u64) -> i32 {
 
 /// C16: goal-bias frequencies over long seeded runs (Hoeffding at alpha = 1e-9).
 fn bias_workload(ctx: &Ctx, tier: Tier, seed: u64) -> Value {
-    let runs = tier.pick(18, 72);
+    let runs = tier.pick(24, 96);
     let iters_per = tier.pick(30_000u64, 100_000);
     par_shards(runs, crate::util::n_threads(), |i| {
         let mut r = Sm::derive(seed, &[1616, i as u64]);
         let kind = [PKind::Rrt, PKind::Connect, PKind::Star][i % 3];
-        let p = [0.0, 1.0, 0.05, 0.3, 0.5, 0.9][(i / 3) % 6];
+        // (0.004 / 0.996: a bias that is positive but below one percent, and its mirror image)
+        let p = [0.0, 1.0, 0.05, 0.3, 0.5, 0.9, 0.004, 0.996][(i / 3) % 8];
         let wrap = ALL_WRAPS[(i / 2 + i / 18) % 6];
         let spec = gen_spec(&mut r, wrap, &GenOpts { nonconvex: false, fracs: false, odd_weights: false, max_dim: 3 });
         // an unreachable goal keeps the planner iterating: goal region entirely invalid, or
@@ -1020,7 +1021,14 @@ fn bias_workload(ctx: &Ctx, tier: Tier, seed: u64) -> Value {
             b.count(&format!("bias_runs[p={p}]"), 1);
             b.count("bias_iterations", n);
             b.max("worst_bias_deviation_over_bound", (frac - p).abs() / eps);
-            let bad = if p == 0.0 { g > 0 } else if p == 1.0 { u > 0 } else { (frac - p).abs() > eps };
+            // Hoeffding is blind to biases far below its epsilon: for those the multiplicative
+            // Chernoff bound P(X <= (1 - delta) n p) <= exp(-delta^2 n p / 2) on the rarer outcome
+            let chernoff = |count: u64, q: f64| -> bool {
+                let mean = n as f64 * q;
+                let delta = 1.0 - count as f64 / mean;
+                delta > 0.0 && (-(delta * delta) * mean / 2.0).exp() < 1e-9
+            };
+            let bad = if p == 0.0 { g > 0 } else if p == 1.0 { u > 0 } else { (frac - p).abs() > eps || chernoff(g, p) || chernoff(u, 1.0 - p) };
             if bad {
                 ctx.violate(&format!("goal-bias-frequency:{}", kind.name()), format!("configured bias {p}: {g} goal samples in {n} iterations (fraction {frac:.4}, Hoeffding bound {eps:.4}); result {}", res.short()),
                     json!({"kind":"bias","problem":problem.to_json(),"params":params.to_json(),"iters":iters}));
